@@ -197,3 +197,71 @@ def emit_buildUpdateMap_classic(R, rule="localp"):
                  "drops": ["the directional (fds) branch of buildUpdateMap", "#pragma omp parallel for"],
                  "fidelity": X.fidelity(src, b, extra_vocab=["Data2D", "pmap", "Utils", "size_mult", "vector", "norm", "getNormalization", "Wrapper2D", "scale", "default_scale", "data", "surpluses", "getStrip",
                                                             "fill_n", "abs", "points", "getNumIndexes", "num_dimensions", "num_outputs", "pragma", "omp", "parallel", "for", "return", "scale_correction", "active_outputs"], slack=14)}
+
+
+WV = "SparseGrids/tsgGridWavelet.cpp"
+def emit_buildUpdateMap_classic_wavelet(R):
+    """GridWavelet::buildUpdateMap: from the first statement to the end of the classic / parents-first branch (block selector)."""
+    text = X.strip_comments(X.read_source(WV))
+    (p,) = X.cut(WV, r'Data2D<int>\s+GridWavelet::buildUpdateMap\s*\(\s*double\s+tolerance\s*,\s*TypeRefinement\s+criteria\s*,\s*int\s+output\s*\)\s*const', text)
+    m = re.search(r'if\s*\(\s*\(criteria\s*==\s*refine_classic\)\s*\|\|\s*\(criteria\s*==\s*refine_parents_first\)\s*\)\s*(?=\{)', p.body)
+    if not m:
+        raise X.ExtractionBreak("GridWavelet::buildUpdateMap: classic branch not found")
+    e = X.match_close(p.body, m.end())
+    b = p.body[1:e + 1]
+    src = b
+    b = R.sub("R11-omp-pragma", r'#\s*pragma\s+omp[^\n]*', '', b)
+    b = R.sub("R5-pmap", r'Data2D<int>\s+pmap\(num_dimensions,\s*num_points,\s*std::vector<int>\(Utils::size_mult\(num_dimensions,\s*num_points\),\s*\(tolerance == 0\.0\) \? 1 : 0\)\s*\)\s*;',
+              'tsg_fill_int(pmap, (size_t) num_dimensions * (size_t) num_points, (tolerance == 0.0) ? 1 : 0);', b, flags=re.S)
+    b = R.sub("R5-return-map", r'return\s+pmap\s*;', 'return;', b)
+    b = R.sub("R10-self-call", r'std::vector<double>\s+norm\s*=\s*getNormalization\(\)\s*;', 'const double *norm = GridLocalPolynomial_getNormalization(self);', b)
+    b = R.sub("R5-strip", r'\bcoefficients\.getStrip\(\s*i\s*\)', '(&self->surpluses[(size_t) i * (size_t) self->num_outputs])', b)
+    b = R.sub("R5-strip", r'\bpmap\.getStrip\(\s*i\s*\)', '(&pmap[(size_t) i * (size_t) self->num_dimensions])', b)
+    b = R.sub("R5-fill", r'std::fill\(\s*p\s*,\s*p\s*\+\s*num_dimensions\s*,\s*1\s*\)', 'tsg_fill_int(p, (size_t) self->num_dimensions, 1)', b)
+    b = R.sub("R13-fp-criterion", r'\(\(std::abs\(s\[(\w+)\]\) / norm\[(\w+)\]\) > tolerance\)', r'(!tsg_small(1.0, s[\1], norm[\2], tolerance))', b)
+    b = R.sub("R10-receiver-call", r'\bpoints\.getNumIndexes\(\)', 'self->num_points', b)
+    for mname in ("num_dimensions", "num_outputs"):
+        b = R.sub("R10-member", r'(?<![\w.>_])%s\b' % mname, 'self->' + mname, b)
+    b = b.replace("self->self->", "self->")
+    X.check_leftover(b, "GridWavelet::buildUpdateMap (classic)")
+    R.require({"R5-pmap": 1, "R5-strip": 2, "R5-fill": 1, "R13-fp-criterion": 2, "R10-self-call": 1})
+    chdr = "void buildUpdateMap_classic(const GLP *self, double tolerance, TypeRefinement criteria, int output, const double *scale_correction, int *pmap, double *default_scale)"
+    out = '#line %d "%s"\n%s{%s\n}\n' % (p.line, X.REPO + "/" + p.rel, chdr, b)
+    return out, {"functions": [{"name": "GridWavelet::buildUpdateMap (classic / parents-first branch)", "file": p.rel, "line": p.line, "loops": X.count_loops(b)}],
+                 "rules_fired": {k: v for k, v in R.counts.items() if v},
+                 "drops": ["the directional (fds) branch of buildUpdateMap", "#pragma omp parallel for"],
+                 "fidelity": X.fidelity(src, b, extra_vocab=["Data2D", "pmap", "Utils", "size_mult", "vector", "norm", "getNormalization", "coefficients", "getStrip", "fill", "abs", "points", "getNumIndexes",
+                                                            "num_dimensions", "num_outputs", "pragma", "omp", "parallel", "for", "return", "p", "1", "+"], slack=14)}
+
+
+def emit_surplus_refinement_sets(R, fam):
+    """Grid<F>::setSurplusRefinement (F in Global, Sequence) over ghost index sets {empty?}: the statements before the flagging loops and the
+    tail from the selection of the children on (block selectors; the loops in between write the locals flagged / norm / surp only)."""
+    rel = "SparseGrids/tsgGrid%s.cpp" % fam
+    text = X.strip_comments(X.read_source(rel))
+    (p,) = X.cut(rel, r'void\s+Grid%s::setSurplusRefinement\s*\(\s*double\s+tolerance\s*,\s*int\s+output\s*,\s*const\s+std::vector<int>\s*&level_limits\s*\)' % fam, text)
+    body = p.body[1:-1]
+    m1 = re.search(r'(?:std::vector<double>\s+surp\s*=|int\s+num_points\s*=)', body)
+    m2 = re.search(r'MultiIndexSet\s+kids\s*=', body)
+    if not m1 or not m2 or m2.start() < m1.start():
+        raise X.ExtractionBreak("Grid%s::setSurplusRefinement: block markers not found" % fam)
+    b = body[:m1.start()] + "\n" + body[m2.start():]
+    src = b
+    b = R.sub("R10-receiver-call", r'(?<![\w.>])(clearRefinement|proposeUpdatedTensors)\(\)', r'fam_\1(self)', b)
+    b = X.balanced_call_sub(R, "R5s-children", b, r'MultiIndexManipulations::selectFlaggedChildren\s*(?=\()', lambda m, a: "gset_children()")
+    b = R.sub("R5s-local", r'\bMultiIndexSet\s+kids\s*=', 'gset kids =', b)
+    b = R.sub("R5s-plus", r'\bkids\s*\+=\s*points\s*;', 'kids = gset_plus_points(kids);', b)
+    b = R.sub("R5s-complete", r'MultiIndexManipulations::completeSetToLower\(\s*kids\s*\)\s*;', 'kids = gset_complete(kids);', b)
+    b = R.sub("R5s-move", r'\bupdated_tensors\s*=\s*std::move\(\s*kids\s*\)\s*;', 'self->updated_tensors = kids;', b)
+    b = R.sub("R5s-minus", r'\bneeded\s*=\s*kids\s*-\s*points\s*;', 'self->needed = gset_minus_points(kids);', b)
+    b = R.sub("R5s-empty", r'\bkids\.getNumIndexes\(\)\s*>\s*0', '(!kids.empty)', b)
+    b = R.sub("R5s-empty", r'\b(kids)\.empty\(\)', r'\1.empty', b)
+    b = R.sub("R5s-empty", r'(?<![\w.>])needed\.empty\(\)', 'self->needed.empty', b)
+    b = R.sub("R10-receiver-call", r'(?<![\w.>])prepareSequence\(0\)', 'fam_prepareSequence(self)', b)
+    X.check_leftover(b, "Grid%s::setSurplusRefinement" % fam)
+    R.require({"R5s-children": 1, "R5s-plus": 1, "R5s-complete": 1})
+    info = {"functions": [{"name": "Grid%s::setSurplusRefinement (head and tail blocks)" % fam, "file": p.rel, "line": p.line, "loops": 0}], "rules_fired": {k: v for k, v in R.counts.items() if v},
+            "drops": ["the loops that compute surp / norm / flagged (locals only)"],
+            "fidelity": X.fidelity(src, b, extra_vocab=["clearRefinement", "proposeUpdatedTensors", "MultiIndexManipulations", "selectFlaggedChildren", "points", "flagged", "level_limits", "MultiIndexSet", "kids", "completeSetToLower",
+                                                       "updated_tensors", "std", "move", "needed", "empty", "getNumIndexes", "prepareSequence", "0", ">", "-", "+=", "="], slack=30)}
+    return '#line %d "%s"\nvoid setSurplusRefinement_%s(GS *self){%s}\n' % (p.line, X.REPO + "/" + p.rel, fam, b), info
